@@ -1,7 +1,9 @@
 package main
 
 import (
+	"fmt"
 	"go/types"
+	"os"
 	"sort"
 
 	"golang.org/x/tools/go/ssa"
@@ -36,6 +38,9 @@ func (P *Program) ufUnion(a, b string) {
 	if ra == rb {
 		return
 	}
+	if os.Getenv("GOVC_DEBUG_CLASSES") != "" {
+		fmt.Fprintf(os.Stderr, "class union: %s ~ %s\n", a, b)
+	}
 	// smaller key is the representative (deterministic)
 	if rb < ra {
 		ra, rb = rb, ra
@@ -69,7 +74,7 @@ func (P *Program) buildSliceClasses() {
 			for _, in := range b.Instrs {
 				switch x := in.(type) {
 				case *ssa.ChangeType:
-					if isSliceT(x.X.Type()) && isSliceT(x.Type()) {
+					if isSliceT(x.X.Type()) && isSliceT(x.Type()) && !onlyReadAsSource(x) {
 						P.ufUnion(typeKey(x.X.Type()), typeKey(x.Type()))
 					}
 				case *ssa.Convert:
@@ -126,4 +131,31 @@ func (P *Program) arrayTypeOf(v ssa.Value) types.Type {
 	}
 	arr, _ := arrayOfPtr(v.Type())
 	return arr
+}
+
+// onlyReadAsSource: the converted slice is used only as the source operand of
+// append(dst, src...) or copy(dst, src) — its elements are read and copied, no
+// alias of the backing array under the new type survives the call.
+func onlyReadAsSource(x *ssa.ChangeType) bool {
+	refs := x.Referrers()
+	if refs == nil || len(*refs) == 0 {
+		return false
+	}
+	for _, r := range *refs {
+		if _, ok := r.(*ssa.DebugRef); ok {
+			continue
+		}
+		c, ok := r.(*ssa.Call)
+		if !ok {
+			return false
+		}
+		b, ok := c.Call.Value.(*ssa.Builtin)
+		if !ok || (b.Name() != "append" && b.Name() != "copy") {
+			return false
+		}
+		if len(c.Call.Args) != 2 || c.Call.Args[1] != ssa.Value(x) || c.Call.Args[0] == ssa.Value(x) {
+			return false
+		}
+	}
+	return true
 }
